@@ -29,7 +29,8 @@ pub fn eqstr(a: &str, b: &str) -> bool {
 macro_rules! case {
     ($name:ident : $t:ty, $(shapes = $ns:literal,)? make = |$sh:ident| $make:expr, same = |$a:ident, $b:ident| $same:expr,
      eps = |$x:ident, $e:ident| $eps:expr
-     $(, borrows = |$be:ident, $bo:ident| $bor:block, n = |$nx:ident| $nb:expr)?) => {
+     $(, borrows = |$be:ident, $bo:ident| $bor:block, n = |$nx:ident| $nb:expr)?
+     $(, alloc = |$ax:ident| $ab:expr)?) => {
         pub struct $name;
         impl Case for $name {
             type T = $t;
@@ -39,6 +40,7 @@ macro_rules! case {
             fn same_eps<'a>($x: &$t, $e: &DeserType<'a, $t>) -> bool { $eps }
             $(fn borrows<'a>($be: &DeserType<'a, $t>, $bo: &mut Borrows) $bor
               fn n_borrows($nx: &$t) -> usize { $nb })?
+            $(fn eps_alloc_bytes($ax: &$t) -> usize { $ab })?
         }
     };
 }
@@ -151,7 +153,8 @@ fn eq_vs_full(a: &[String], b: &[String]) -> bool {
     true
 }
 case!(VecVecU16: Vec<Vec<u16>>, shapes = 6, make = |s| vec_vec_u16(s), same = |a, b| eq_vv_full(a, b), eps = |x, e| eq_vv(x, e),
-      borrows = |e, out| { let mut i = 0; while i < e.len() { out.slice(e[i], i); i += 1; } }, n = |x| x.len());
+      borrows = |e, out| { let mut i = 0; while i < e.len() { out.slice(e[i], i); i += 1; } }, n = |x| x.len(),
+      alloc = |x| x.len() * core::mem::size_of::<&[u16]>());
 
 /// (length, width of the char of string 0, of string 1; 0 = empty string) per shape.
 pub const VS_SHAPES: [(usize, usize, usize); 6] = [(0, 0, 0), (1, 0, 0), (1, 1, 0), (1, 3, 0), (2, 0, 2), (2, 4, 1)];
@@ -169,10 +172,13 @@ fn eq_vs(x: &[String], e: &[&str]) -> bool {
     true
 }
 case!(VecString: Vec<String>, shapes = 6, make = |s| vec_string(s), same = |a, b| eq_vs_full(a, b), eps = |x, e| eq_vs(x, e),
-      borrows = |e, out| { let mut i = 0; while i < e.len() { out.str(e[i], i); i += 1; } }, n = |x| x.len());
+      borrows = |e, out| { let mut i = 0; while i < e.len() { out.str(e[i], i); i += 1; } }, n = |x| x.len(),
+      alloc = |x| x.len() * core::mem::size_of::<&str>());
 case!(BoxString: Box<[String]>, shapes = 6, make = |s| vec_string(s).into_boxed_slice(), same = |a, b| eq_vs_full(a, b), eps = |x, e| eq_vs(x, e),
-      borrows = |e, out| { let mut i = 0; while i < e.len() { out.str(e[i], i); i += 1; } }, n = |x| x.len());
-case!(VecOptU8: Vec<Option<u8>>, make = |_s| vec_upto::<Option<u8>, 2>(), same = |a, b| eqs(a, b), eps = |x, e| eqs(x, e));
+      borrows = |e, out| { let mut i = 0; while i < e.len() { out.str(e[i], i); i += 1; } }, n = |x| x.len(),
+      alloc = |x| x.len() * core::mem::size_of::<&str>());
+case!(VecOptU8: Vec<Option<u8>>, make = |_s| vec_upto::<Option<u8>, 2>(), same = |a, b| eqs(a, b), eps = |x, e| eqs(x, e),
+      alloc = |x| x.len() * core::mem::size_of::<Option<u8>>());
 
 fn opt_vec_u16() -> Option<Vec<u16>> { if any::<bool>() { Some(vec_upto::<u16, 2>()) } else { None } }
 case!(OptVecU16: Option<Vec<u16>>, make = |_s| opt_vec_u16(), same = |a, b| match (a, b) { (None, None) => true, (Some(a), Some(b)) => eqs(a, b), _ => false },
@@ -259,17 +265,20 @@ case!(DeepSU32: DeepS<u32>, make = |_s| deep_u32(), same = |a, b| a == b,
       eps = |x, e| { let e: &DeepS<u32> = e; x == e });
 fn mention() -> Mention<u16> { Mention { v: vec_upto::<u16, 2>(), k: any() } }
 case!(MentionU16: Mention<u16>, make = |_s| mention(), same = |a, b| eqs(&a.v, &b.v) && a.k == b.k,
-      eps = |x, e| { let e: &Mention<u16> = e; eqs(&x.v, &e.v) && x.k == e.k });
+      eps = |x, e| { let e: &Mention<u16> = e; eqs(&x.v, &e.v) && x.k == e.k },
+      alloc = |x| x.v.len() * 2);
 fn both() -> Both<Vec<u8>, u16, String> { Both { a: vec_upto::<u8, 2>(), vb: vec_upto::<u16, 1>(), _p: PhantomData } }
 case!(BothC: Both<Vec<u8>, u16, String>, make = |_s| both(), same = |a, b| eqs(&a.a, &b.a) && eqs(&a.vb, &b.vb),
       eps = |x, e| { let e: &Both<&[u8], u16, String> = e; eqs(&x.a, e.a) && eqs(&x.vb, &e.vb) },
-      borrows = |e, out| { out.slice(e.a, 0); }, n = |_x| 1);
+      borrows = |e, out| { out.slice(e.a, 0); }, n = |_x| 1,
+      alloc = |x| x.vb.len() * 2);
 fn gen() -> Gen<Vec<u16>, 2> { Gen { a: vec_upto::<u16, 2>(), b: any() } }
 case!(GenC: Gen<Vec<u16>, 2>, make = |_s| gen(), same = |a, b| eqs(&a.a, &b.a) && a.b[0] == b.b[0] && a.b[1] == b.b[1],
       eps = |x, e| { let e: &Gen<&[u16], 2> = e; eqs(&x.a, e.a) && x.b[0] == e.b[0] && x.b[1] == e.b[1] },
       borrows = |e, out| { out.slice(e.a, 0); }, n = |_x| 1);
 fn tups() -> TupS { TupS(any(), vec_upto::<u16, 2>(), any()) }
-case!(TupSC: TupS, make = |_s| tups(), same = |a, b| a.0 == b.0 && eqs(&a.1, &b.1) && a.2 == b.2, eps = |x, e| { let e: &TupS = e; x.0 == e.0 && eqs(&x.1, &e.1) && x.2 == e.2 });
+case!(TupSC: TupS, make = |_s| tups(), same = |a, b| a.0 == b.0 && eqs(&a.1, &b.1) && a.2 == b.2, eps = |x, e| { let e: &TupS = e; x.0 == e.0 && eqs(&x.1, &e.1) && x.2 == e.2 },
+      alloc = |x| x.1.len() * 2);
 case!(UnitSC: UnitS, make = |_s| UnitS, same = |a, b| a == b, eps = |x, e| { let e: &UnitS = e; x == e });
 fn deep_prims() -> DeepPrims { DeepPrims { a: any(), b: any(), c: any() } }
 case!(DeepPrimsC: DeepPrims, make = |_s| deep_prims(), same = |a, b| a == b, eps = |x, e| { let e: &DeepPrims = e; x == e });
@@ -325,7 +334,8 @@ case!(E5C: E5<Vec<u8>>, make = |_s| e5(), same = |a, b| match (a, b) { (E5::A, E
       eps = |x, e| { let e: &E5<&[u8]> = e; match (x, e) { (E5::A, E5::A) | (E5::E, E5::E) => true, (E5::B(a), E5::B(b)) => a == b,
                       (E5::C(a, v), E5::C(b, w)) => a == b && eqs(v, w),
                       (E5::D { a: a1, b: b1 }, E5::D { a: a2, b: b2 }) => a1 == a2 && eqs(b1, b2), _ => false } },
-      borrows = |e, out| { if let E5::D { b, .. } = e { out.slice(*b, 0); } }, n = |x| if matches!(x, E5::D { .. }) { 1 } else { 0 });
+      borrows = |e, out| { if let E5::D { b, .. } = e { out.slice(*b, 0); } }, n = |x| if matches!(x, E5::D { .. }) { 1 } else { 0 },
+      alloc = |x| match x { E5::C(_, v) => v.len() * 2, _ => 0 });
 
 // ---- nesting of derived types in containers ------------------------------------------------
 
@@ -341,4 +351,5 @@ fn vec_deeps(s: usize) -> Vec<DeepS<Vec<u8>>> {
 case!(VecDeepS: Vec<DeepS<Vec<u8>>>, shapes = 2, make = |s| vec_deeps(s), same = |a, b| a.len() == b.len() && (a.len() == 0 || (a[0].id == b[0].id && eqs(&a[0].data, &b[0].data) && a[0].tail == b[0].tail)),
       eps = |x, e| { let e: &Vec<DeepS<&[u8]>> = e; x.len() == e.len() && (x.len() == 0 ||
                       (x[0].id == e[0].id && eqs(&x[0].data, e[0].data) && x[0].tail == e[0].tail)) },
-      borrows = |e, out| { if e.len() == 1 { out.slice(e[0].data, 0); } }, n = |x| x.len());
+      borrows = |e, out| { if e.len() == 1 { out.slice(e[0].data, 0); } }, n = |x| x.len(),
+      alloc = |x| x.len() * core::mem::size_of::<DeepS<&[u8]>>());
